@@ -148,13 +148,12 @@ def run(ck):
         row = next(r for r in a["act"] if any(v[0] == "r" for v in r.values()))
         key = next(kk for kk, v in row.items() if v[0] == "r")
         del row[key]
-        b = next(x for x in arts.values() if x["conflict"])
-        b["built"], b["conflict"], b["terr"] = True, False, ""
-        b["act"], b["goto"], b["nstates"] = a["act"], a["goto"], a["nstates"]
+        b = next(x for x in arts.values() if x["built"] and x["id"] != a["id"])
+        b["built"], b["conflict"], b["terr"] = False, True, "Ambiguous Grammar (made up by the selftest)"
         vp.write_ndjson(os.path.join(ck.work, "tla", "lalr.ndjson"), [a, b])
         r = ck.tlc("UserLalr", constants={"K": 3})
-        h = len(r.printed("TABLEDIFF")) + len(r.printed("SILENTLYRESOLVED"))
-        print("SELFTEST %s: a reduce entry dropped / a conflict report turned into a table -> %d report(s)" % ("OK" if h >= 2 else "FAILED", h))
+        h = len(r.printed("TABLEDIFF")) + len(r.printed("TABLEDIFF-NESTED")) + len(r.printed("FALSEREJECT"))
+        print("SELFTEST %s: a reduce entry dropped / a table turned into a conflict report -> %d report(s)" % ("OK" if h >= 2 else "FAILED", h))
         return 0 if h >= 2 else 2
     r = decide(ck, arts, k)
     for a in list(arts.values())[:: max(1, len(arts) // 10)]:
